@@ -19,8 +19,9 @@ MANIFEST_ENTRY = {
     "technique": "Coq proof over a hand-written executable model + differential correspondence check (vm_compute) + property oracle",
     "design_ref": "DESIGN.md 4/C14",
 }
-ANCHOR_RANGES = [("jsonrpclib/jsonrpc.py", 1004, 1092), ("jsonrpclib/jsonrpc.py", 1095, 1195),
-                 ("jsonrpclib/jsonrpc.py", 1198, 1280), ("jsonrpclib/jsonrpc.py", 1281, 1352)]
+# line ranges in the repaired tree: Fault, Payload, dump, dumps/load/loads
+ANCHOR_RANGES = [("jsonrpclib/jsonrpc.py", 1004, 1092), ("jsonrpclib/jsonrpc.py", 1095, 1197),
+                 ("jsonrpclib/jsonrpc.py", 1202, 1277), ("jsonrpclib/jsonrpc.py", 1280, 1350)]
 RULE = ("exhaustive product method {'m','a.b','',None,5} x params {[],[1],(),(1,),{},{'a':1},None,5,'s',Fault,Fault+data} x "
         "rpcid (17 values incl. 0, 0.0, -0.0, '', False, (), 2**70) x version {None,1.0,2.0,'1.0','2.0'} x methodresponse x notify "
         "{None,False,True} x config {default, 1.0, class translation off} through dump and loads(dumps()) (quick: all id x version x "
@@ -40,7 +41,10 @@ ASSUMPTIONS = ["versions: the five listed spellings for the oracle; other float(
 CFGS = {"default": (2.0, True), "v1": (1.0, True), "nojc": (2.0, False), "v1nojc": (1.0, False),
         "v2int": (2, True), "v1str": ("1.0", False)}
 LISTED_VERSIONS = [None, 1.0, 2.0, "1.0", "2.0"]
-OTHER_VERSIONS = [1, 2, True, 1.5, 2.5, 3.0, 0, "", "2", "1.5", [2], 1.1, 2.1, "abc", "1.1", 1e16]
+# off-list spellings kept in the correspondence: numerically 1.0 / 2.0, falsy (-> configuration), or not float()-able.
+# Versions strictly between 1.0 and 2.0 or above 2.0 are NOT generated: the statement is silent on them and harmless
+# rewrites (a constant "2.0" marker, `version < 2`) would change them.
+OTHER_VERSIONS = [1, 2, True, 0, "", "2", "1", [2], "abc", " 2.0"]
 FLAGS = [None, False, True]
 METHODS = ["m", "a.b", "", None, 5]
 PARAMS = [[], [1], (), (1,), {}, {"a": 1}, None, 5, "s", FaultSpec(-32601, "nope", None), FaultSpec(5, "x", {"d": [0]})]
@@ -120,6 +124,19 @@ class Main(pipeline.Stream):
         # (5) loads("")
         for cfg in sorted(CFGS):
             one(api="loads_empty", cfg=cfg)
+        # (5b) loads(json text) of plain values, Fault.error(), and the Payload builders called directly
+        for v, cfg in itertools.product([None, 0, "", [], {}, [1, [2.5, None]], {"a": {"b": []}}, "x", True, 1e308, -0.0], ["default", "nojc"]):
+            one(api="loads_text", cfg=cfg, params=v)
+        for own, data in itertools.product(IDS_SMALL, (None, 0, [1])):
+            one(api="fault_error", params=FaultSpec(-32000, "Server error", data), own=own)
+        direct = list(itertools.product(["p_request", "p_notify", "p_response"], ["m", None, 5],
+                                        [None, [], [1], {"a": 1}, 5], IDS, LISTED_VERSIONS, ["default", "v1"]))
+        if tier == "quick":
+            direct = rng.sample(direct, 1000)
+        for api, m, p, rid, ver, cfg in direct:
+            one(api=api, cfg=cfg, method=m, params=p, rpcid=rid, version=ver)
+        for rid, ver, cfg, data in itertools.product(IDS, LISTED_VERSIONS, ["default", "v1"], (None, 0, {"k": 1})):
+            one(api="p_error", cfg=cfg, params=FaultSpec(-32602, "Invalid params", data), rpcid=rid, version=ver)
         # (6) random nested params / results / fault members
         n_rand = 400 if tier == "quick" else 6000
         for _ in range(n_rand):
@@ -208,6 +225,22 @@ class Main(pipeline.Stream):
                         text[0] = J.Fault(p.code, p.msg, rpcid=c["own"], config=cfg, data=p.data).response(c["rpcid"], c["version"])
                         return json.loads(text[0])
                     o = outcome(f)
+                elif api == "loads_text":
+                    o = outcome(lambda: J.loads(json.dumps(c["params"]), cfg))
+                elif api == "fault_error":
+                    p = c["params"]
+                    o = outcome(lambda: J.Fault(p.code, p.msg, rpcid=c["own"], config=cfg, data=p.data).error())
+                elif api.startswith("p_"):
+                    def f():
+                        pl = J.Payload(rpcid=c["rpcid"], version=c["version"], config=cfg)
+                        if api == "p_request":
+                            return pl.request(c["method"], c["params"])
+                        if api == "p_notify":
+                            return pl.notify(c["method"], c["params"])
+                        if api == "p_response":
+                            return pl.response(c["params"])
+                        return pl.error(c["params"].code, c["params"].msg, c["params"].data)
+                    o = outcome(f)
                 else:
                     o = outcome(lambda: J.loads("", cfg))
                 raws.append(o)
@@ -256,6 +289,17 @@ class Main(pipeline.Stream):
             if o != ("ok", None):
                 return ("C14:loads-empty", 'loads("") gave %r' % (o,))
             return None
+        if api == "loads_text":
+            if o[0] != "ok" or not V.same(o[1], jnorm(c["params"])):
+                return ("C14:roundtrip", "loads(text of %r) gave %r" % (c["params"], o))
+            return None
+        if api == "fault_error":
+            f = c["params"]
+            if o[0] != "ok" or not V.same(o[1], {"code": f.code, "message": f.msg, "data": f.data}):
+                return ("C14:error-members", "Fault.error() of %r gave %r" % (f, o))
+            return None
+        if api.startswith("p_"):
+            return None         # the statement speaks about dump/dumps; the builders are compared with the model only
         ver = self._version(c)
         if ver is None or c["resp"] not in FLAGS or c["notify"] not in FLAGS:
             return None
@@ -361,9 +405,14 @@ class Main(pipeline.Stream):
             vals = [p.code, p.msg, p.data] if isinstance(p, FaultSpec) else [p]
             if not all(plain_json(x) for x in vals + [c["method"], c["rpcid"], c["own"]]):
                 return None
-            api = {"dump": "ADump", "dumpsloads": "ADumpsLoads", "loads_empty": "ALoadsEmpty"}.get(c["api"])
-            if api is None:
-                api = "(%s %s)" % ("AFaultDump" if c["api"] == "fault_dump" else "AFaultResponse", G.g_val(c["own"]))
+            api = {"dump": "ADump", "dumpsloads": "ADumpsLoads", "loads_empty": "ALoadsEmpty",
+                   "p_request": "(APayload PKRequest)", "p_notify": "(APayload PKNotify)",
+                   "p_response": "(APayload PKResponse)", "p_error": "(APayload PKError)"}.get(c["api"])
+            if c["api"] == "loads_text":
+                api = "(ALoadsText %s)" % G.g_val(p)
+            elif api is None:
+                api = "(%s %s)" % ({"fault_dump": "AFaultDump", "fault_response": "AFaultResponse",
+                                    "fault_error": "AFaultError"}[c["api"]], G.g_val(c["own"]))
             terms.append("(C14Call %s %s (mkPcfg %s %s) %s %s %s %s %s %s)" % (
                 api, G.g_val(self.C.DEFAULT.version), G.g_val(cv), G.g_bool(jc), g_params(p), G.g_val(c["method"]),
                 G.g_val(c["rpcid"]), G.g_val(c["version"]), G.g_val(c["resp"]), G.g_val(c["notify"])))
@@ -381,7 +430,7 @@ class Main(pipeline.Stream):
         if len(case) > 1:
             return "sequence of %d calls" % len(case)
         c, o = case[0], obs["raw"][0]
-        if c["api"] in ("fault_dump", "fault_response", "loads_empty"):
+        if c["api"] in ("fault_dump", "fault_response", "fault_error", "loads_empty", "loads_text") or c["api"].startswith("p_"):
             k = c["api"]
         elif isinstance(c["params"], FaultSpec):
             k = "error"
